@@ -357,6 +357,12 @@ func newScenario(r *hx.Rng, id int, nkeys int, length int) *scenario {
 		x := uint32(1 + r.Intn(length-1))
 		changeAt[x], changeAt[x+1] = true, true
 	}
+	if length > 100 { // a validator-set change inside the 100-block window of a long chain
+		changeAt[uint32(length-3-r.Intn(12))] = true
+		if r.Intn(2) == 0 {
+			changeAt[uint32(length-16-r.Intn(20))] = true
+		}
+	}
 	s.extend(length, changeAt)
 	s.snapshotEnv(0)
 	return s
@@ -947,6 +953,45 @@ func (s *scenario) assembleSweep() {
 	}
 }
 
+// gossip messages whose commits straddle a validator-set change: [valid commit at hx, commit at hy by a validator that is
+// active at hx only], both orders of (P-1, P) for every parameter height P; the pool is emptied first so that the first
+// commit runs through every step
+func (s *scenario) straddleOps() {
+	has := func(vals []sortedVal, ki int) bool {
+		for _, v := range vals {
+			if v.ki == ki {
+				return true
+			}
+		}
+		return false
+	}
+	for _, p := range s.rec.Params {
+		if p.Height < 2 || p.Height > s.tip {
+			continue
+		}
+		for _, pair := range [][2]uint32{{p.Height - 1, p.Height}, {p.Height, p.Height - 1}} {
+			hx, hy := pair[0], pair[1]
+			vx, vy := s.sortedVals(hx), s.sortedVals(hy)
+			if vx == nil || vy == nil {
+				continue
+			}
+			for _, v := range vx {
+				if has(vy, v.ki) {
+					continue
+				}
+				// v is active at hx only
+				w := vx[s.r.Intn(len(vx))]
+				s.exec.VerifC06Pool().Cleanup(func(uint32) bool { return false })
+				s.rec.Ops = append(s.rec.Ops, opRec{T: "cl", Keep: []uint32{}, PG: []commitRec{}, PNG: []commitRec{}})
+				s.scvOp([]commitSpec{
+					{block: s.headers[hx].ID, height: hx, addr: s.addrs[w.ki], sig: s.signCert(w.ki, s.headers[hx])},
+					{block: s.headers[hy].ID, height: hy, addr: s.addrs[v.ki], sig: s.signCert(v.ki, s.headers[hy])},
+				}, false)
+			}
+		}
+	}
+}
+
 func main() {
 	out := flag.String("out", "cases.jsonl", "output")
 	nscn := flag.Int("scenarios", 6, "scenarios")
@@ -971,6 +1016,7 @@ func main() {
 		s := newScenario(r, i, nkeys, length)
 		s.verifyOps(0)
 		s.assembleSweep()
+		s.straddleOps()
 		s.poolOps(*npool)
 		o.Put(s.rec)
 		// the history goes on: more blocks (finality and the certified height move, parameters change again), the pool
